@@ -150,6 +150,7 @@ func hostileMatrix(idx int) (string, bool) {
 		"{\n hv = %s\n hv(%s)\n}", "{\n hv = %s\n hv()\n}", "{\n hv = %s\n hv(%s, %s)\n}", "toa(%s)", "write(%s)", "aton(%s)", "fromto(%s, %s)", "for hv <- %s hv", "for hv <- elems(%s) hv", "for hv <- indices(%s) hv",
 		"for hv, hw <- fromto(%s, %s), elems(%s) hv", "for hv <- fromto(0, 3) %s", "{\n hf = () -> yield %s\n for hv <- hf() hv\n}", "{\n hf = () -> return %s\n hf()\n}", "return %s", "yield %s",
 		"-(%s)", "#(%s)", "!(%s)", "~(%s)", "hv = %s", "[%s, %s]", "{\n hf = (p, q) -> p\n hf(%s)\n}", "{\n hf = (p, q) -> q + p\n hf(%s, %s)\n}", "read(%s)", "{\n hf = (p) -> (q) -> p + q\n hg = hf(%s)\n hg(%s)\n}",
+		"for hv, hw <- fromto(0, %s) hv", "{\n hf = () -> for hp, hq, hr <- elems(%s), fromto(0, 2) hp\n hf()\n}", // (not in the grammar: a parse error, unless the parser lets it through)
 		"\"abcde\"[%s:%s]", "[1, 2, 3][%s:%s]", "{\n hs = [1, 2, 3, 4][1:3]\n hs[%s:%s]\n}",
 	}
 	if form >= len(forms) {
@@ -178,7 +179,7 @@ func hostileMatrixCount() int {
 func init() {
 	register(&core.Property{
 		ID:          "C05",
-		Rule:        "programs: (1) grammar-random, ill-typed trees (every node kind in every operand and statement position, huge and boundary constants, builtin names as variables) in sessions of 1..5 statements, (2) an enumerated matrix of " + fmt.Sprint(len(hostileVals)) + " hostile values (undefined name, function, boundary ints, infinities/NaN, bools, strings, nested arrays, closures) in every pair x all 17 binary operators and in 35 statement/builtin positions (condition, index, slice bound, callee, argument count, iterator, yield/return operand, unary operand ...), (3) token-level mutations of corpus programs that still parse, (4) the typed sessions of C01 with planted faults; each in REPL and script compile mode. non-trivial = at least one statement executed to a value or a runtime error; distinct by session text and mode.",
+		Rule:        "programs: (1) grammar-random, ill-typed trees (every node kind in every operand and statement position, huge and boundary constants, builtin names as variables) in sessions of 1..5 statements, (2) an enumerated matrix of " + fmt.Sprint(len(hostileVals)) + " hostile values (undefined name, function, boundary ints, infinities/NaN, bools, strings, nested arrays, closures) in every pair x all 17 binary operators and in 37 statement/builtin positions (condition, index, slice bound, callee, argument count, iterator, yield/return operand, unary operand ...), (3) token-level mutations of corpus programs that still parse, (4) the typed sessions of C01 with planted faults; each in REPL and script compile mode. non-trivial = at least one statement executed to a value or a runtime error; distinct by session text and mode.",
 		Assumptions: []string{"programs that hit the VM step limit without a reference verdict (ill-typed infinite loops) are counted inconclusive/diverged, programs whose values outgrow 10^6 elements are dropped before reaching the VM, a worker stopped by the heap guard is inconclusive/oom", "exit() is not called"},
 		Families: []core.Family{
 			{Name: "matrix", Count: func(string) int { return hostileMatrixCount() * 2 }, Run: func(_ *core.Ctx, idx int) core.Result {
